@@ -16,7 +16,7 @@ CLAIMS = {
         "Every ONNX node emission site of converter and plugins (direct builder calls, getattr/ir.Node/add_node forms with the operator name "
         "constant-propagated through helpers) is enumerated; for each, the set of target opsets that can reach the site is computed from enclosing "
         "tests, abort-guards, flag variables and predicate helpers, and the operator, its attribute names and its input/output arity must exist in the "
-        "onnx.defs schema at every such opset in 21..newest. This decides 'nothing newer than the declared opset is emitted' for every plugin, "
+        "onnx.defs schema at every such opset in 21..newest; a lowering that gates an operator's dtype handling on the opset at which ONNX extended the operator's input types must cover every type added at that version. This decides 'nothing newer than the declared opset is emitted' for every plugin, "
         "which the tests (one opset per plugin) cannot.",
         "Decides operator/attribute/arity availability only; numeric agreement across opsets, ORT kernel availability and checker acceptance are not decided. "
         "Trusted: CPython ast, onnx.defs of the installed onnx, the naming assumption that `opset`/`.opset` denote the target opset. Dynamic operator names that do not "
@@ -30,8 +30,8 @@ CLAIMS = {
         "confirm that every source value survives T->U->T. The integer range proof is checked on boundary intervals for every integer type pair, its pass-through operator set must be value-set preserving, "
         "the Range closed form must bound every emitted value for all (start, limit, delta) in a bounded box, and the Cast->Cast rewrite must be "
         "dominated by `next_target == src_dtype` and the decision called with (source dtype, first target). Exhaustive on the decision function's finite domain.",
-        "Not decided: the Range closed form outside the enumerated box [-7,7]^2 x [-4,4], ONNX Runtime's actual Cast semantics (saturation, NaN payload), float8/4-bit/string types "
-        "(a True decision there is UNRESOLVED). Trusted: onnx_ir.DataType member facts, the frozen IEEE parameter table, the restricted evaluator (unsupported syntax -> UNRESOLVED).",
+        "Not decided: the Range closed form outside the enumerated box [-7,7]^2 x [-4,4], ONNX Runtime's actual Cast semantics (saturation, NaN payload), string types "
+        "(STRING/UNDEFINED: a True decision there is UNRESOLVED; float8 / float4 / e8m0 are decided from value sets enumerated from their bit layouts). Trusted: onnx_ir.DataType member facts, the frozen IEEE parameter table and low-bit layout table, the restricted evaluator (unsupported syntax -> UNRESOLVED).",
         "DESIGN.md §3 C17",
     ),
     "C13": (
@@ -39,7 +39,7 @@ CLAIMS = {
         "Every @contextmanager and save/restore function of the package that mutates host state (setattr on patch targets, jax.config, the refcounted patch table, the re-entrancy ContextVar) "
         "must mutate inside the try whose finally restores (or in the single statement right before it), yield inside it and undo loops in reverse; every write to a jax/flax/equinox/numpy/... "
         "module or class attribute must be paired in the same function or run only while `import jax2onnx` executes (computed from the top-level import closure); package context managers "
-        "may only be entered through with/ExitStack. This covers every unwinding point of every patch stack, which no test exercises.",
+        "may only be entered through with/ExitStack; in every save/restore pair the saved value is read before the first write and is what the restore writes. This covers every unwinding point of every patch stack, which no test exercises.",
         "Not decided: pollution of jax.jit trace caches, mutation of user modules by library code, behavioural probes. Assumes objects named self/cls/ctx/owner/*builder are converter-owned. "
         "Five genuine unscoped writes (jnp.cumsum, *_p attributes) are recorded in known_findings.json; the apply_monkey_patches leak was repaired (fix commit de6b809).",
         "DESIGN.md §3 C13",
@@ -49,7 +49,7 @@ CLAIMS = {
         "All 288 patch spec sites (MonkeyPatchSpec / jnp_binding_specs, resolved through nested factories, lambdas, class constants and subclasses) are mapped to the wrapper definition "
         "installed while tracing; every call form the library signature binds (positional index, keyword name, omitted optional, *args/**kwargs) must bind on the wrapper, every wrapper "
         "parameter's incoming value must reach a read (or be documented as ignored by the library / listed inert), and every keyword passed to <prim>.bind must be a parameter of the plugin's "
-        "abstract_eval. The library side comes from the installed jax/flax/equinox, so the check follows library upgrades.",
+        "abstract_eval; substitutes that canonicalise positional arguments by hand must map each library positional slot to the same parameter. The library side comes from the installed jax/flax/equinox, so the check follows library upgrades.",
         "Not decided: whether an accepted argument is lowered with the same meaning. 124 call-form gaps and 5 silently ignored arguments are genuine and listed in known_findings.json "
         "(each confirmed against the real wrappers by triage/c19_confirm.py). Trusted: inspect.signature of third-party callables; Python's argument binding rules as modelled in sa/sigs.py.",
         "DESIGN.md §3 C19",
@@ -59,17 +59,17 @@ CLAIMS = {
         "For every pass in _OPTIMIZER_PASSES the analysis derives which node outputs change meaning (input re-routing of a retained node, upstream bypass in a pair fold) or disappear (removal without a "
         "dominating replace_all_uses_with) and demands a graph-output / nested-graph observation test on exactly those values that is negative on every path to the rewrite; first-input-only chain walks "
         "may only accept single-data-input ops or ops whose side operands are tested scalar-constant; the reshape-pair guard must keep symbolic dims distinguishable; fresh values must be defined; "
-        "function-body passes must not touch initializers/inputs; each commit point must be dominated by its semantic precondition with the right operands. This quantifies over every rewrite site "
+        "function-body passes must not touch initializers/inputs; each commit point must be dominated by its semantic precondition with the right operands; observation tests must cover BOTH observation kinds (graph output and capture by a nested Loop/If body), the observation helpers must reach both base tests (predicate completeness), and _is_inverse_perm is evaluated against its definition on all permutation pairs up to rank 4. This quantifies over every rewrite site "
         "and every choice of observed values, which the 47 fold-happens tests do not.",
         "Not decided: numerical equivalence of a rewrite whose guards are all present (permutation arithmetic, axis remapping), CSE and upstream onnx_ir passes. Roles are recognised through the module's own "
-        "accessors; an observation test the analysis cannot attribute makes the instance UNRESOLVED. Five genuine defect groups found by these rules were repaired (fix commits f81538a, 66aee58, fefc5f3, 4efb73f, 1da6963).",
+        "accessors; an observation test the analysis cannot attribute makes the instance UNRESOLVED. Six genuine defect groups found by these rules were repaired (fix commits f81538a, 66aee58, fefc5f3, 4efb73f, 1da6963, 52c1b25).",
         "DESIGN.md §3 C02 and Appendix A",
     ),
     "C14": (
         "taint analysis of id()/hash() results, set-typed iteration lint with order-sensitivity classification of loop bodies (mypy-typed cross-check in the thorough tier), module-state-to-name flow check",
         "Every id()/hash() call on the export path is followed to its uses (keys/comparisons are fine; names, attributes, sort keys are violations); every iteration over a set/frozenset "
         "(for, comprehension, list(S), S.pop(), next(iter(S))) is classified by what its body does (name allocation, node emission/insertion, append to a list whose order is observed later, "
-        "first-match selection); module-level mutable state written on the export path must not reach a model name; plugin discovery order is reported. "
+        "first-match selection); module-level mutable state written on the export path must not reach a model name; process-wide markers consulted by the lowering must be reset on every exit; plugin discovery order is reported. "
         "The hash-seed / allocation-history quantifier is exactly what a single-process test cannot vary.",
         "Not decided: byte identity itself, onnx_ir passes, protobuf serialisation. Set typing is syntactic in the quick tier (constructors, annotations, helper return annotations) and cross-checked "
         "against mypy-inferred types in the thorough tier. The one genuine hit (function/graph input order from a set[str]) was repaired (fix commit 16ea4a8).",
@@ -86,33 +86,33 @@ CLAIMS = {
         "DESIGN.md §3 C01",
     ),
     "C09": (
-        "dtype-provenance classification of every array reaching a non-downcasting constant sink + save/restore pairing of the x64 flag on the CFG",
+        "dtype-provenance classification of every array reaching a non-downcasting constant sink + save/restore pairing of the x64 flag on the CFG + who-may-run check of x64-sensitive JAX calls against the scoped-flag blocks (call graph)",
         "All ~240 sites where an array becomes a model constant without passing the float policy (ir.tensor, const_value=, tensor_attr, bind_const_for_var) are enumerated and the array's dtype provenance is "
         "classified (explicit dtype / derived from an operand / parameter / default-float64 numpy literal); a default-float64 literal there puts a DOUBLE tensor into a single-precision export. "
-        "Every jax_enable_x64 update must be covered by a restoring finally and the restored value must have been read from jax.config on every path before the first update.",
+        "Every jax_enable_x64 update must be covered by a restoring finally and the restored value must have been read from jax.config on every path before the first update. In every function that scopes the flag, no x64-sensitive JAX call (canonicalize_dtype, jnp.*, jax.random.*, eval_shape, make_jaxpr, device_put) may run outside the scoped block, directly or through package helpers: it would resolve dtypes under the process flag instead of enable_double_precision.",
         "NOT decided: double-precision accuracy of an export, hidden float32 casts inside individual lowerings (no sound static rule in reach; said so rather than linted). Provenance that cannot be resolved "
         "locally is UNRESOLVED (26 of 236 today).",
         "DESIGN.md §3 C09",
     ),
     "C18": (
-        "must-pass-through analysis on the CFG of the comparison helper + cast-provenance check on comparison operands",
+        "must-pass-through analysis on the CFG of the comparison helper + cast-provenance check on comparison operands + memoisation / module-state lint on the validation session over the call graph",
         "In _run_allclose every path to a match verdict must pass the output-count comparison and, per output, a shape comparison and a value comparison whose failure branch returns (False, ...) and whose operands are "
         "the reference and the model output; no operand may be cast to the other's dtype without a same-kind test on the path (the defect that made a model off by 0.9 pass); allclose must run under the scoped x64 "
-        "context; _build_ort_inputs must feed or raise for every session input. These are the False branches no pinned test drives.",
+        "context; _build_ort_inputs must feed or raise for every session input; every InferenceSession reachable from the helpers must be built from the path parameter of the current call in a function without a cache decorator and not kept in module state (a memoised session answers for a stale file). These are the False branches no pinned test drives.",
         "Not decided: ONNX Runtime execution, tolerance arithmetic. The narrowing defect found by R-C18b was repaired (fix commit 91c6437).",
         "DESIGN.md §3 C18",
     ),
     "C15": (
         "control-dependence (typestate 'finalised') check of every call receiving the IR model in to_onnx + constant / def-use checks on the save helper's branches",
         "No call that receives the IR model before delivery may be control-dependent on the return or export mode (so 'ir', 'proto' and 'file' deliver the same finalised model); the web branch must save one "
-        "self-contained file and delete a stale sidecar; the standard branch must name one sidecar after the destination basename.",
+        "self-contained file and delete a stale sidecar; the standard branch must name one sidecar after the destination basename and may delete a sidecar only after the save and only under a test of the saved proto's external_data.",
         "Not decided: equality of the protective clone with the original graph, bit-exact reload of spilled tensors, ORT outputs.",
         "DESIGN.md §3 C15",
     ),
     "C05": (
         "writer/reader agreement between extracted name patterns and reader predicates (finite-domain evaluation of the keep predicate, regex matching), who-may-remove check on graph inputs, guard dominance on the CFG",
         "The f-string patterns the converter uses for positional graph inputs are extracted and instantiated; every reader that decides keeping / mapping positional inputs must accept them; graph inputs may be "
-        "removed only by the prune pass, which must be top-graph-only, order-preserving and consult the always-keep rule first; every name validation must raise before rename_values / before the converter runs.",
+        "removed only by the prune pass, which must be top-graph-only, order-preserving and consult the always-keep rule first; every name validation must raise before rename_values / before the converter runs, and the name-collision check must look into all graph values (inputs, outputs, initializers, node outputs).",
         "Not decided: declared dtypes and shapes vs jax.eval_shape, output ordering of pytrees. The in_<i>_nchw defect was repaired (fix 64e066d).",
         "DESIGN.md §3 C05",
     ),
@@ -128,7 +128,7 @@ CLAIMS = {
         "def-use / must-pass analysis of the function dedup-key construction (loops over inputs and parameters, payload value-dependence, key assembly, instance-state fingerprint)",
         "In FunctionPlugin._lower_and_call the input-signature loop must add, on every path, an entry depending on the unreduced aval shape and the dtype; the parameter loop must add a capture on every path; "
         "each static capture payload must depend on the parameter's value (not only its type); FunctionKey must be assembled from name, input signature and capture signature; the default mode must key by callee "
-        "identity, the unique mode by captures plus a per-leaf/attribute value fingerprint of the instance. A key that ignores a distinguishing field still yields the function counts the pinned tests assert.",
+        "identity, the unique mode by captures plus a per-leaf/attribute value fingerprint of the instance; the per-name instance counter must be keyed by the identifier the emitted function name is built from. A key that ignores a distinguishing field still yields the function counts the pinned tests assert.",
         "Not decided: equality with the undecorated export, hash collisions, call-node arity. Body-signature safety is C02 R-C02e, re-entrancy flag pairing is C13 R-C13d. The ragged-static-argument defect was repaired (fix f85648c).",
         "DESIGN.md §3 C07",
     ),
@@ -141,34 +141,34 @@ CLAIMS = {
         "DESIGN.md §3 C04",
     ),
     "C03": (
-        "name-provenance classification of every value name (def-use through helpers), who-may-create / who-may-write checks on lowering contexts and initializer lists, must-pass check of the nested-scope prefixing",
+        "name-provenance classification of every value name (def-use through helpers), who-may-create / who-may-write checks on lowering contexts and initializer lists, must-pass check of the nested-scope prefixing, symbolic list-layout agreement between declared output names and result slices",
         "All ~1800 places where lowering or optimizer code names a value (`_outputs=[...]`, ir.Value(name=...)) are classified as fresh / existing / derived / parameter / interface / literal; a literal name at a site that can run "
         "more than once per graph scope is a duplicate definition. Lowering contexts may only be created by the three scope constructors, and make_subgraph_context must wrap BOTH name allocators with a parent-derived prefix on "
         "every path (uniqueness at any nesting depth, which example-based regression tests cannot settle). Initializer lists are written only through function-mode aware entry points; collected functions are attached with "
-        "their domain imports.",
+        "their domain imports; slices cut from a multi-output node's result tuple must coincide with the sections of its declared output-name list (symbolic prefix sums) and be paired with the collection that generated the section.",
         "Not decided: onnx.checker / strict shape inference / ORT load results, def-before-use of every value, call-node arity. Names derived from node names rely on the name-fix pass running first.",
         "DESIGN.md §3 C03",
     ),
     "C06": (
         "def-use across the cond branch extraction and If emission, dominance of rejection guards, data-provenance of Loop entry inputs",
         "JAX stores cond branches as (false, true): element 1 must reach then_branch and element 0 else_branch of the emitted If; reverse scans, inconsistent arity / scanned extents, missing jaxprs and N-way switches must raise "
-        "before anything is emitted; bodies go through the checked dispatcher; while_loop's initial Loop condition must be the cond jaxpr evaluated on the initial state (the structural necessary condition for zero-iteration "
+        "before anything is emitted (the reverse rejection must be a test of `reverse` alone, or the reached helper must read it); bodies go through the checked dispatcher; while_loop's initial Loop condition must be the cond jaxpr evaluated on the initial state (the structural necessary condition for zero-iteration "
         "loops, a path no pinned test executes); scan / fori trip counts must derive from the length / trip_count parameter or the scanned extent.",
         "Not decided: actual trip counts, carried-value wiring, stacked outputs, zero-trip results - they need execution.",
         "DESIGN.md §3 C06",
     ),
     "C08": (
-        "guard / provenance analysis of every annotation write in export post-processing + pairing of payload and type writes on the CFG",
+        "guard / provenance analysis of every annotation write in export post-processing + pairing of payload and type writes on the CFG + iteration-order classification (element provenance) of annotation refresh loops",
         "Post-processing may assign a `.shape` only to non-interface values (never reached from the true edge of the io-name test) and only with the result of _unknown_shape_like, which must turn every dimension into None or "
-        "keep it (via a _normalize_dim that returns the same dimension); replacing a constant's payload must be followed by the matching `.type` assignment on every path.",
-        "Not decided: the truth of annotations stamped by ~600 plugins and of the optimizer's metadata refresh (later propagate passes re-derive most shapes, so a missing in-step refresh is not statically a wrong final annotation).",
+        "keep it (via a _normalize_dim that returns the same dimension); replacing a constant's payload must be followed by the matching `.type` assignment on every path; every loop that re-derives node annotations from current inputs must visit producers before consumers (graph order, a forward-built list or a reversed backward-built list - never a set or a backward list).",
+        "Not decided: the truth of annotations stamped by ~600 plugins and of the optimizer's metadata refresh (later propagate passes re-derive most shapes, so a missing in-step refresh is not statically a wrong final annotation). The set-order refresh defect found by R-C08c was repaired (fix 16c99d0).",
         "DESIGN.md §3 C08",
     ),
     "C16": (
         "exit-path analysis of the plugin lookup, CFG-based swallow lint over every broad non-re-raising handler around emitting code, structural check of the optimizer failure policy",
         "A failed plugin lookup must raise on every path; a broad handler around node emission / binding / sub-jaxpr lowering that does not re-raise must fall through to another lowering, binding or raise before a normal return "
-        "(never a silently partial lowering); optimizer failures must re-raise under the strict switch (argument first, then environment) and be logged otherwise; dimension symbols without origin must raise before emission. "
-        "Rejection of unsupported control-flow variants is C06 R-C06b, unknown dimension operations C04 R-C04b, dispatch stages C01 R-C01c.",
+        "(never a silently partial lowering); optimizer failures must re-raise under the strict switch (argument first, then environment) and be logged otherwise; dimension symbols without origin must raise before emission; "
+        "the rejection instances of unsupported control-flow variants (C06 R-C06b) and unknown dimension operations (C04 R-C04b) are re-decided here as R-C16d. Dispatch stages: C01 R-C01c.",
         "Not decided: validity of the model when an optimizer pass aborts mid-rewrite (crash points inside a pass).",
         "DESIGN.md §3 C16",
     ),
